@@ -108,6 +108,19 @@ fn real_main(args: &[String]) -> i32 {
                 _ => 2,
             }
         }
+        "texts" => {
+            // `sim texts <seed> <n>`: print n generated workload texts (for inspection)
+            let seed: u64 = args.get(2).and_then(|s| s.parse().ok()).unwrap_or(1);
+            let n: usize = args.get(3).and_then(|s| s.parse().ok()).unwrap_or(5);
+            let mut rng = rng::Rng::new(seed);
+            let mut screen = corpus::Screen::new();
+            for i in 0..n {
+                let t = screen.gen_text(&mut rng);
+                say!("---- text {} ----\n{}", i, t);
+            }
+            say!("screened in {} out {}", screen.screened_in, screen.screened_out);
+            0
+        }
         "hashes" => {
             // `sim hashes <id> <n>`: per-stream trace hashes of the first n scenario streams
             let ctx = match ctx_from_env(Tier::Quick) {
